@@ -273,6 +273,62 @@ SADeserializeStrings(ser) ==
   LET o == DecodeChain(ser.offsets.e, ser.offsets.a).a.v
   IN [i \in 1..(Len(o) - 1) |-> SubSeq(ser.stringData, o[i] + 1, o[i + 1])]
 
+(* ================================================================== memory representation of the input array *)
+(* The encoders receive numpy arrays.  The property speaks about the VALUES of "arrays of every supported width
+   and sign"; the same values reach the code in different representations:
+     "native"    contiguous, native (little-endian) byte order, writable, aligned
+     "swapped"   non-native byte order (dtype '>i2', '>f8', '>U3': arrays taken from big-endian binary sources)
+     "strided"   every second element of a larger buffer (a column of a table, a slice with a step)
+     "reversed"  a view with a negative stride
+     "readonly"  not writable (np.frombuffer, memory maps, the arrays of a file that was read)
+     "unaligned" elements not aligned to their size (a field of a packed record)
+     "foreign"   swapped + strided + read-only at once
+     "wide"      32-bit values carried by the 64-bit integer type (what numpy makes of Python integers)
+     "list"      a Python list instead of an array (array_like arguments; integers arrive as int64)
+   Specification: every operation is a function of the values alone - Enc, ImplRoundTrip, IdealOutcome, SciImpl,
+   the candidates of compress() never see the representation; a case is to be executed under every member of
+   RepsOf(array) with the same expected result.
+   Code shape: two places of encoding.pyx look at the representation -
+     _safe_cast(array, dtype) returns the ARRAY ITSELF when its dtype equals the target dtype, and numpy dtypes
+        are equal only when type AND byte order agree (one-byte types have no byte order, '|'); otherwise it
+        returns a converted copy with the target dtype (all target dtypes are little-endian: _TYPE_CODE_TO_DTYPE);
+     ndarray.tobytes() writes the elements in index order (strides do not matter) in the byte order OF THE ARRAY,
+        while the type ByteArray declares, and decodes with, is little-endian;
+     the typed memoryview of RunLength._encode accepts strided and read-only buffers, but no foreign byte order.
+   Every other encoder computes a new native array from the values (data * factor, data - origin, searchsorted,
+   astype(np.int32), np.unique); TypeCode.from_dtype ignores the byte order and maps the 64-bit integers to the
+   32-bit codes.  EncR is Enc with these places spelled out; MCEnc checks EncR = Enc (InvRepFree). *)
+Reps == {"native", "swapped", "strided", "reversed", "readonly", "unaligned", "foreign", "wide", "list"}
+RepsOf(A) ==
+  {"native", "strided", "reversed", "readonly"}
+  \cup (IF A.t = StrT \/ TBytes(A.t) > 1 THEN {"swapped", "foreign"} ELSE {})
+  \cup (IF A.t # StrT /\ TBytes(A.t) > 1 THEN {"unaligned"} ELSE {})
+  \cup (IF A.t \in {3, 6} THEN {"wide"} ELSE {})
+  \cup (IF A.t \in {3, 33, StrT} /\ A.v # <<>> THEN {"list"} ELSE {})
+RepBE(r) == r \in {"swapped", "foreign"}
+RepWide(t, r) == t \in IntTypes /\ r \in {"wide", "list"}
+\* numpy dtype of the array: <<type (64 + t: the 64-bit carrier), byte order>>
+DtypeOf(t, r) == <<IF RepWide(t, r) THEN 64 + t ELSE t,
+                   IF TBytes(t) = 1 THEN "|" ELSE IF RepBE(r) THEN ">" ELSE "<">>
+\* TypeCode.to_dtype()
+TargetDtype(ty) == <<ty, IF TBytes(ty) = 1 THEN "|" ELSE "<">>
+\* byte order of the array _safe_cast(array, to_dtype(ty)) hands on
+SafeCastOrder(t, r, ty) == IF DtypeOf(t, r) = TargetDtype(ty) THEN DtypeOf(t, r)[2] ELSE TargetDtype(ty)[2]
+EncBAR(e, A, r) ==
+  LET base == EncBA(e, A)
+      ty == OptOr(e[2], A.t)
+  IN IF base.oc # "ok" \/ SafeCastOrder(A.t, r, ty) # ">" THEN base
+     ELSE IF ty \in IntTypes
+          THEN R("ok", Arr(BytesT, Flat([i \in DOMAIN A.v |-> Reverse(IntBytes(A.v[i], TBytes(ty)))])), base.e)
+          ELSE R("ok", Arr(-ty - 100, A.v), base.e)       \* float bytes in an order DecBA does not read
+EncRLR(e, A, r) ==
+  LET base == EncRL(e, A) IN
+  IF base.oc = "ok" /\ SafeCastOrder(A.t, r, OptOr(e[3], A.t)) = ">" THEN Rej(e)    \* buffer dtype mismatch
+  ELSE base
+EncR(e, A, r) == CASE e[1] = "BA" -> EncBAR(e, A, r) [] e[1] = "RL" -> EncRLR(e, A, r) [] OTHER -> Enc(e, A)
+\* the representation does not matter (only the first encoding of a chain sees the input array)
+RepFree(chain, A) == chain = <<>> \/ \A r \in RepsOf(A) : EncR(chain[1], A, r) = Enc(chain[1], A)
+
 (* ================================================================== the property *)
 \* can the target representation of one encoding hold its input?
 Holds(e, A) ==
